@@ -53,8 +53,9 @@ func main() {
 	sched := fs.String("sched", "", "comma list of repo-relative files to put under vsched")
 	osf := fs.String("os", "", "comma list of repo-relative files whose os import becomes vos")
 	allowChan := fs.String("allow-chan", "", "comma list of function names allowed to contain channel code")
-	var consts multi
+	var consts, clones multi
 	fs.Var(&consts, "const", "file:NAME=VALUE")
+	fs.Var(&clones, "clone", "srcdir:dstname[:lit:OLD=NEW|:const:NAME=VALUE]...  scaled copy of a package as internal/verif/<dstname>")
 	fs.Parse(os.Args[2:])
 	if *out == "" {
 		die("-out required")
@@ -134,12 +135,101 @@ func main() {
 		replace[src] = dst
 	}
 
+	for _, c := range clones {
+		if err := clonePkg(*repo, *out, c, replace); err != nil {
+			die("clone %s: %v", c, err)
+		}
+	}
+
 	b, _ := json.MarshalIndent(map[string]any{"Replace": replace}, "", " ")
 	op := filepath.Join(*out, "overlay.json")
 	if err := os.WriteFile(op, b, 0o644); err != nil {
 		die("%v", err)
 	}
 	fmt.Println(op)
+}
+
+// clonePkg writes rewritten copies of the non-test files of /repo/<srcdir> and maps them to
+// the virtual package internal/verif/<dstname> (same package name, different import path),
+// so that a harness can drive the real code and a scaled configuration in one binary.
+func clonePkg(repo, out, spec string, replace map[string]string) error {
+	parts := strings.Split(spec, ":")
+	if len(parts) < 2 {
+		return fmt.Errorf("bad spec")
+	}
+	src, dst := parts[0], parts[1]
+	lits := map[string]string{}
+	consts := map[string]string{}
+	for i := 2; i+1 < len(parts); i += 2 {
+		kv := strings.SplitN(parts[i+1], "=", 2)
+		if len(kv) != 2 {
+			return fmt.Errorf("bad rewrite %q", parts[i+1])
+		}
+		switch parts[i] {
+		case "lit":
+			lits[kv[0]] = kv[1]
+		case "const":
+			consts[kv[0]] = kv[1]
+		default:
+			return fmt.Errorf("bad rewrite kind %q", parts[i])
+		}
+	}
+	ents, err := os.ReadDir(filepath.Join(repo, src))
+	if err != nil {
+		return err
+	}
+	hitL, hitC := map[string]int{}, map[string]int{}
+	for _, e := range ents {
+		n := e.Name()
+		if e.IsDir() || !strings.HasSuffix(n, ".go") || strings.HasSuffix(n, "_test.go") {
+			continue
+		}
+		fset := token.NewFileSet()
+		f, err := parser.ParseFile(fset, filepath.Join(repo, src, n), nil, parser.ParseComments)
+		if err != nil {
+			return err
+		}
+		ast.Inspect(f, func(nd ast.Node) bool {
+			switch x := nd.(type) {
+			case *ast.BasicLit:
+				if x.Kind == token.INT {
+					if v, ok := lits[x.Value]; ok {
+						hitL[x.Value]++
+						x.Value = v
+					}
+				}
+			case *ast.ValueSpec:
+				for i, nm := range x.Names {
+					if v, ok := consts[nm.Name]; ok && i < len(x.Values) {
+						x.Values[i] = &ast.BasicLit{Kind: token.INT, Value: v}
+						hitC[nm.Name]++
+					}
+				}
+			}
+			return true
+		})
+		var buf bytes.Buffer
+		fmt.Fprintf(&buf, "// Code generated by vtool (scaled clone of %s/%s); DO NOT EDIT.\n", src, n)
+		if err := printer.Fprint(&buf, fset, f); err != nil {
+			return err
+		}
+		p := filepath.Join(out, "clone_"+dst+"_"+n)
+		if err := os.WriteFile(p, buf.Bytes(), 0o644); err != nil {
+			return err
+		}
+		replace[filepath.Join(repo, vroot, dst, n)] = p
+	}
+	for k := range lits {
+		if hitL[k] == 0 {
+			return fmt.Errorf("literal %s not found in %s", k, src)
+		}
+	}
+	for k := range consts {
+		if hitC[k] == 0 {
+			return fmt.Errorf("constant %s not found in %s", k, src)
+		}
+	}
+	return nil
 }
 
 func splitList(s string) []string {
